@@ -1,7 +1,9 @@
 package main
 
 import (
+	"os"
 	"runtime"
+	"strconv"
 	"strings"
 	"sync"
 	"sync/atomic"
@@ -116,10 +118,22 @@ func unregisterGate(path string) {
 	}
 }
 
+// timerPatience: minimisation re-runs (SVH_TIMER_PATIENCE_MS set by ./check) must not wait the full patience at every tick of
+// every candidate history when the hook points are not reached on the tree under test
+func timerPatience(d time.Duration) time.Duration {
+	if v := os.Getenv("SVH_TIMER_PATIENCE_MS"); v != "" {
+		if n, err := strconv.Atoi(v); err == nil && n > 0 && time.Duration(n)*time.Millisecond < d {
+			return time.Duration(n) * time.Millisecond
+		}
+	}
+	return d
+}
+
 // letTimerFlushWithWindow lets one timer flush through like letTimerFlush, but parks the timer goroutine between its LevelDB
 // write and the batch reset and runs `during` (which must not wait for the flush to end) while it is parked there.
 // Returns false when the window was not reached (other persister kinds, restructured code): `during` was then NOT run.
 func letTimerFlushWithWindow(g *timerGate, patience time.Duration, during func()) bool {
+	patience = timerPatience(patience)
 	if g.blind.Load() {
 		return false
 	}
@@ -156,6 +170,7 @@ func letTimerFlushWithWindow(g *timerGate, patience time.Duration, during func()
 // handler has had its turn, and the state oracles (crash images at the boundary after the tick, read-backs) decide
 // whether what had to be flushed was flushed.
 func letTimerFlush(g *timerGate, patience time.Duration) bool {
+	patience = timerPatience(patience)
 	if g.blind.Load() {
 		patience = 2500 * time.Millisecond
 	}
